@@ -113,7 +113,7 @@ def canon(v):  # pylint: disable=too-many-return-statements,too-many-branches
         except UnicodeDecodeError:
             return ("bytes", hashlib.sha1(v).hexdigest())
     if isinstance(v, str):
-        return v
+        return str(v)  # numpy.str_ included
     if isinstance(v, np.ndarray):
         if v.dtype.names:
             return [[canon(x) for x in row] for row in v.reshape(-1).tolist()] if v.ndim else [canon(x) for x in v.tolist()]
@@ -127,10 +127,10 @@ def canon(v):  # pylint: disable=too-many-return-statements,too-many-branches
     if isinstance(v, dict):
         return {"__dict__": {str(canon(k)) if not isinstance(k, str) else k: canon(x) for k, x in v.items()}}
     cname = type(v).__name__
-    if cname == "ColorMap":
-        return {"__cmap__": [canon(getattr(v, "name", None)), canon(getattr(v, "_values", None))]}
+    if cname == "ColorMap":  # the colour table itself (its file name is an attribute of the ColorMap object, not of the type)
+        return canon(getattr(v, "_values", None))
     if cname == "ReferenceValueMap":
-        return {"__vmap__": canon(dict(v.map))}
+        return canon(dict(v.map))
     if cname.endswith("ImageFile") or cname == "Image" or (hasattr(v, "tobytes") and hasattr(v, "mode") and hasattr(v, "getpixel")):
         return ("image", tuple(v.size), v.mode, hashlib.sha1(v.tobytes()).hexdigest())
     if _is_entity(v):
@@ -609,6 +609,13 @@ def domain(fx: Fixture, ent, attr, cur):  # pylint: disable=too-many-return-stat
     current value is None a concrete token-0 value is returned, which the replay assigns while building the fixture."""
     name = fx.cls
     base = cur
+    # ---- attributes that a class hard-wires in its constructor: no valid NEW value exists
+    if name == "RootGroup" and attr in ("name", "allow_move", "allow_delete", "allow_rename"):
+        raise Skip("hard-wired on the root group ('Hard wired attributes', groups/root.py:37-42): every reader shows the "
+                   "fixed value, so there is no valid new value (the setter nevertheless accepts one and writes it)")
+    if name == "FilenameData" and attr == "public":
+        raise Skip("hard-wired to False in the constructor (data/filename_data.py:33): no valid new value (the setter "
+                   "nevertheless accepts True and writes it)")
     # ---- per-attribute overrides
     if isinstance(cur, (bool, np.bool_)) or attr == "vertical":
         # two-valued domain: token 1 = negation, token 2 = the original value given as the other spelling (int 0/1)
